@@ -9,11 +9,9 @@ PROP = "C09"
 def spec():
     s = [dict(name="q_bounded", sources=["q_bounded.cpp"], variant=v) for v in ("dbg", "asan")]
     s += [dict(name="q_unbounded", sources=["q_unbounded.cpp"], variant=v) for v in ("dbg",)]
-    try:
-        from vlib import e2e
-        s += e2e.specs(["dbg"], queues=["bb", "bd", "ub"])
-    except ImportError:
-        pass
+    from vlib import e2e
+    if 'progress' in e2e.PLANS:
+        s += e2e.specs_for(['progress'])
     return s
 
 
@@ -30,11 +28,9 @@ def run(tier, seed):
     for p in range(3 if q else 10):
         js.append(core.Job(exes[("q_unbounded", "dbg")], ["--mode", "inject", "--seed", seed * 1000 + 300 + p, "--configs", 150 if q else 400, "--records", 5000],
                            variant="dbg", timeout=1800, tag="q_unbounded.inject", prop=PROP))
-    try:
-        from vlib import e2e
-        js += e2e.jobs(exes, "progress", tier, seed, PROP)
-    except ImportError:
-        pass
+    from vlib import e2e
+    if 'progress' in e2e.PLANS:
+        js += e2e.jobs(exes, 'progress', tier, seed, PROP)
     col = core.Collector(PROP)
     for j in core.run_jobs(js):
         col.absorb(j, prop_filter={PROP})
